@@ -88,7 +88,13 @@ func (o *establishLinkResolver) Resolve(ctx context.Context, handler directive.R
 		values = values[:0]
 		o.c.bcast.HoldLock(func(broadcast func(), getWaitCh func() <-chan struct{}) {
 			// get all links matching the target peer
-			values = append(values, o.c.linksByPeerID[targetPeerID]...)
+			//
+			// The source peer was checked against the transport this resolver saw
+			// first. If the controller was executed again with another identity
+			// since, its links are not from the requested source peer.
+			if sourcePeerID == "" || sourcePeerID == o.c.peerID {
+				values = append(values, o.c.linksByPeerID[targetPeerID]...)
+			}
 
 			// get wait ch to watch for changes
 			waitCh = getWaitCh()
